@@ -192,7 +192,7 @@ func c01BlobBinding(c *Ctx, fn *ssa.Function, fi *FnInfo, sum *Summary, ta, outc
 	w := c.W
 	q := regexp.QuoteMeta
 	hash := `call:\(core/internal/algorithm\.Algorithm\)\.Hash\((` + q(outcomeDesc) + `\.EnvelopeContent\.SignerInfo\.SignatureAlgorithm|…)\)`
-	lookup := `global:ngo/verifier\.algorithms\[` + hash + `\]`
+	lookup := `global:ngo/verifier\.` + q(w.globalWhere("verifier", isHashDigestMap)) + `\[` + hash + `\]`
 	gen := `call:dyn:` + q(paramWhere(fn, isFuncType)) + `\(` + lookup + `\)`
 	both := func(a, b string) string { return `(` + a + `,` + b + `|` + b + `,` + a + `)` }
 	c.requireOnExits("blob", fn, sum.Exits, []Need{
